@@ -62,6 +62,8 @@ def cases(tier, seed):
     for m in families.models():
         if in_fragment(m):
             yield ('S', m)
+    for t in families.long_chains():
+        yield ('SK', cm.on_carrier([t]))
     for t in families.deep_trees():
         yield ('SK', cm.on_carrier([t]))
     # long constraints over names that contain blanks (the break column is moved by the first name's length)
